@@ -11,7 +11,8 @@ MANIFEST = dict(
     engine="cron",
     technique="Coq proof over ALL zone tables with bounded offsets and spaced transitions (soundness on the local wall clock, "
               "termination, and completeness up to repeated local times: exactness of firstAfter + loop invariant); extracted "
-              "model fed Go's own transition tables and a per-second wall-clock oracle on real IANA zones",
+              "model fed Go's own transition tables and a per-second wall-clock oracle on real IANA zones"
+              " + source-to-Gallina translation of internal/csm's node level proved equivalent to the model (SrcTie)",
     text="Machine-checked for every zone table with offsets within +-26h and transitions more than 52h apart, every well-formed "
          "expression and every prev: a returned instant is strictly after prev and its LOCAL wall clock reading satisfies the "
          "expression (nothing fired early or on a non-matching reading); the call always terminates; a matching instant after prev "
@@ -20,7 +21,8 @@ MANIFEST = dict(
          "fired); a table without transitions reduces to the fixed-offset theorems of C02. The tie to the code: the extracted model is "
          "fed the transition tables Go reports through ZoneBounds (each must satisfy wf_zone) and must agree with the real trigger on "
          "expressions and prevs placed before/inside/after gaps and both passes of repeated hours of real IANA locations (30/45-minute "
-         "shifts, Lord Howe, Apia's skipped day, Casablanca); independently a per-second wall-clock scan checks every result.",
+         "shifts, Lord Howe, Apia's skipped day, Casablanca); independently a per-second wall-clock scan checks every result."
+         " The node level of internal/csm (util.go, common_node.go, day_node.go: every function) is additionally translated from the Go SOURCE into Gallina on every run (Gen/CsmSrc.v) and proved equal to the model's node functions for all inputs (SrcEquiv.v, Props/SrcTie.v), so a change of these functions breaks a proof obligation even where no sampled input shows it.",
     design_ref="6 C14")
 
 
